@@ -3,7 +3,11 @@
 usage: seedregress.py [name prefix ...]   prints one line per seed; exit 1 if a recorded detection is lost."""
 import json, os, subprocess, sys, glob
 
-ENV = dict(os.environ, GOFLAGS="-mod=mod", GOPROXY="off", GOSUMDB="off", GOTOOLCHAIN="local")
+# SEED_REPO: the tree the patches are applied to (default /repo; a scratch worktree lets other work go on meanwhile);
+# the checks are those of the directory this script lives in (a snapshot copy of /verif works as well)
+REPO = os.environ.get("SEED_REPO", "/repo")
+VERIF = os.path.dirname(os.path.dirname(os.path.abspath(__file__)))
+ENV = dict(os.environ, GOFLAGS="-mod=mod", GOPROXY="off", GOSUMDB="off", GOTOOLCHAIN="local", VERIF_REPO=REPO)
 
 
 def sh(cmd, cwd=None):
@@ -14,7 +18,7 @@ def sh(cmd, cwd=None):
 def main():
     pre = sys.argv[1:]
     lost = 0
-    for d in sorted(glob.glob("/verif/seeded/*/")):
+    for d in sorted(glob.glob(VERIF + "/seeded/*/")):
         name = os.path.basename(d.rstrip("/"))
         if pre and not any(name.startswith(x) for x in pre):
             continue
@@ -24,18 +28,18 @@ def main():
             continue
         pid = name.split("-")[0]
         check = pid if pid in det else det[0]
-        rc, out = sh("git -C /repo status --porcelain")
-        assert out.strip() == "", "/repo not clean"
-        rc, out = sh("git -C /repo apply %spatch.diff" % d)
+        rc, out = sh("git -C %s status --porcelain" % REPO)
+        assert out.strip() == "", REPO + " not clean"
+        rc, out = sh("git -C %s apply %spatch.diff" % (REPO, d))
         if rc != 0:
             print(name, "PATCH DOES NOT APPLY", flush=True)
             lost += 1
             continue
         try:
-            rc, out = sh("./check %s --tier quick" % check, cwd="/verif")
+            rc, out = sh("./check %s --tier quick" % check, cwd=VERIF)
         finally:
-            sh("git -C /repo checkout -- .")
-            sh("git -C /repo clean -fdq")
+            sh("git -C %s checkout -- ." % REPO)
+            sh("git -C %s clean -fdq" % REPO)
         ok = rc == 1
         if not ok:
             lost += 1
